@@ -17,6 +17,7 @@
 // events {"e":"set","v":[BE octets],"rej":bool,"gb":[[..],..],"ga":[[..],..],"hb":[..],"ha":[..]}
 //        {"e":"probe","v":[carrier octets],"rej":bool}   {"e":"unbound"}   {"e":"noprobe"}
 #include "vh.h"
+#include "catalogue.h"
 #include <tins/tins.h>
 #include <tins/loopback.h>
 #include <tins/vxlan.h>
@@ -194,6 +195,12 @@ static void build_registry() {
       SU("key_ack", 1, 1, key_ack); SU("install", 1, 1, install); SU("key_index", 2, 2, key_index); SU("key_t", 1, 1, key_t); SU("key_descriptor", 3, 3, key_descriptor);
       U("key_length", 16, uint16_t, key_length); U("replay_counter", 64, uint64_t, replay_counter); ARR("nonce", 32, nonce); ARR("key_iv", 16, key_iv);
       ARR("rsc", 8, rsc); ARR("id", 8, id); ARR("mic", 16, mic); U("wpa_length", 16, uint16_t, wpa_length); }
+    { typedef RSNEAPOL T; cls("RSNEAPOL_key", false, []() -> PDU* { RSNEAPOL* e = new RSNEAPOL(); e->key(RSNEAPOL::key_type(24, 0x6b)); return e; });
+      U("version", 8, uint8_t, version); U("packet_type", 8, uint8_t, packet_type); U("length", 16, uint16_t, length); U("type", 8, uint8_t, type);
+      SU("encrypted", 1, 1, encrypted); SU("request", 1, 1, request); SU("error", 1, 1, error); SU("secure", 1, 1, secure); SU("key_mic", 1, 1, key_mic);
+      SU("key_ack", 1, 1, key_ack); SU("install", 1, 1, install); SU("key_index", 2, 2, key_index); SU("key_t", 1, 1, key_t); SU("key_descriptor", 3, 3, key_descriptor);
+      U("key_length", 16, uint16_t, key_length); U("replay_counter", 64, uint64_t, replay_counter); ARR("nonce", 32, nonce); ARR("key_iv", 16, key_iv);
+      ARR("rsc", 8, rsc); ARR("id", 8, id); ARR("mic", 16, mic); U("wpa_length", 16, uint16_t, wpa_length); }
     { typedef RTP T; cls("RTP", false, []() -> PDU* { return new RTP(); });
       SU("version", 2, 2, version); GETONLY("padding_bit", 1, o.padding_bit()); SU("extension_bit", 1, 1, extension_bit); GETONLY("csrc_count", 4, o.csrc_count());
       SU("marker_bit", 1, 1, marker_bit); SU("payload_type", 7, 7, payload_type); U("sequence_number", 16, uint16_t, sequence_number);
@@ -346,6 +353,27 @@ static Bytes header_bytes(const Class& c, PDU& o, int hdr, std::string& err) {
           Bytes s = k->serialize(); if ((int)s.size() > hdr) s.resize(hdr); return s; }
     catch (std::exception& e) { err = e.what(); return Bytes(); }
 }
+// prior states that only a parser produces: the object's own serialisation with random values in the header bits the table
+// assigns to NO field of this (variant of the) class - reserved bits, bits that belong to a sibling variant's fields - parsed
+// back by the class's buffer constructor.  A setter has to leave them alone like every other bit that is not its own.
+static PDU* reparse_live(const Class& c, const ClsLay& cl, PDU& o, vh::Rng& r) {
+    try {
+        Bytes s = o.serialize();
+        if ((int)s.size() < cl.hdr) return 0;
+        std::vector<char> used(8 * cl.hdr, 0);
+        for (std::map<std::string, Lay>::const_iterator it = cl.f.begin(); it != cl.f.end(); ++it) for (int j = 0; j < it->second.w; ++j) used[pos_of(it->second, j)] = 1;
+        bool any = false;
+        for (int p = 0; p < 8 * cl.hdr; ++p) if (!used[p]) { any = true; if (r.coin()) s[p / 8] ^= (uint8_t)(1 << (7 - p % 8)); }
+        if (!any) return 0;
+        std::unique_ptr<PDU> q(construct(o.pdu_type(), &s[0], (uint32_t)s.size()));
+        if (!q || q->pdu_type() != o.pdu_type()) return 0;
+        // still the same variant of the class, with the same values in every field the table knows (a flipped bit may have been
+        // one that selects another header format - then this is not a state of the class under test)
+        for (size_t i = 0; i < c.fields.size(); ++i) if (get_value(c.fields[i], *q) != get_value(c.fields[i], o)) return 0;
+        if (q->header_size() != o.header_size()) return 0;
+        return q.release();
+    } catch (std::exception&) { return 0; }
+}
 static void log_getters(vh::W& w, const char* key, const std::vector<Bytes>& g) { w.key(key).A(); for (size_t i = 0; i < g.size(); ++i) w.bytes(g[i].begin(), g[i].end()); w.E(); }
 
 static void scenario(const vh::Json& sc, vh::Out& out, vh::Rng& rng, const vh::Args& args) {
@@ -393,7 +421,9 @@ static void scenario(const vh::Json& sc, vh::Out& out, vh::Rng& rng, const vh::A
             // half of the objects carry a payload of their own: what serialisation derives from it (lengths, checksums, tags) is marked
             // derived in the tables, everything else must stay what the setters stored
             if (!o->inner_pdu() && rng.coin()) { std::string pl((size_t)rng.range(1, 150), 'p'); o->inner_pdu(RawPDU(pl)); }
-            randomise(*c, *o, rng, f); gb.clear(); for (size_t k = 0; k < c->fields.size(); ++k) gb.push_back(get_value(c->fields[k], *o));
+            randomise(*c, *o, rng, f);
+            if (rng.below(3) == 0) { PDU* q = reparse_live(*c, cl, *o, rng); if (q) o.reset(q); }
+            gb.clear(); for (size_t k = 0; k < c->fields.size(); ++k) gb.push_back(get_value(c->fields[k], *o));
             std::string err; hb = header_bytes(*c, *o, hdr, err); }
         std::string what, err; bool ok = call_setter(*f, *o, vals[i], what);
         ga.clear(); for (size_t k = 0; k < c->fields.size(); ++k) ga.push_back(get_value(c->fields[k], *o));
